@@ -439,6 +439,21 @@ def write_evidence(prop, tier, seed, level, coverage, wall, violations, assumpti
           "assumptions": assumptions, "wall_s": round(wall, 1), "violations": int(violations)}
     with open(os.path.join(evdir, prop + ".json"), "w") as f:
         json.dump(ev, f, indent=1, sort_keys=True)
+    # one line per (property, tier) of the last run of each tier, for the cost table of DESIGN.md (lib/mkcosts.py)
+    sp = os.path.join(evdir, "summary.json")
+    lock = open(sp + ".lock", "w")
+    fcntl.flock(lock, fcntl.LOCK_EX)
+    try:
+        summ = json.load(open(sp)) if os.path.exists(sp) else {}
+        c = coverage
+        summ.setdefault(prop, {})[tier] = {
+            "wall_s": round(wall, 1), "violations": int(violations), "seed": int(seed),
+            "states": c.get("states"), "transitions": c.get("transitions"),
+            "executions_on_real_code": c.get("traces_validated_against_impl"), "evaluations": c.get("evaluations")}
+        with open(sp, "w") as f:
+            json.dump(summ, f, indent=1, sort_keys=True)
+    finally:
+        fcntl.flock(lock, fcntl.LOCK_UN)
     return ev
 
 
